@@ -5,6 +5,7 @@
 #include <errno.h>
 #include <fcntl.h>
 #include <pthread.h>
+#include <sched.h>
 #include <semaphore.h>
 #include <signal.h>
 #include <stdio.h>
@@ -315,6 +316,7 @@ struct task {
     char api[64];
     int api_nb;
     int steps;
+    int polls_in_api;
 };
 
 struct event {
@@ -357,6 +359,7 @@ void mc_api_begin(const char *api, int nonblocking)
     if (tl_task >= 0) {
         snprintf(g_tasks[tl_task].api, sizeof g_tasks[tl_task].api, "%s", api);
         g_tasks[tl_task].api_nb = nonblocking;
+        g_tasks[tl_task].polls_in_api = 0;
     }
     if (g_rec)
         snprintf(g_rec->cur_api, sizeof g_rec->cur_api, "%s", api);
@@ -493,6 +496,10 @@ int mc_block_poll(struct pollfd *fds, int nfds, int timeout_ms)
             return -1;
         }
     }
+    /* a second wait inside the same blocking call means the previous wake-up did not complete it:
+       the task yielded (fairness: whoever can end the wait goes first) */
+    if (t->polls_in_api++ > 0)
+        t->yielded = 1;
     t->state = T_BLOCKPOLL;
     t->pfds = fds;
     t->npfds = nfds;
@@ -938,6 +945,15 @@ static void worker(int wid, struct mc_rec *rec)
 {
     uint8_t choices[MC_MAX_POINTS];
     struct item_hdr h;
+    /* one CPU per worker: the child's cooperative threads hand off on the same CPU instead of
+       waking each other across (virtual) CPUs */
+    long ncpu = sysconf(_SC_NPROCESSORS_ONLN);
+    if (ncpu > 0 && !getenv("MCX_NO_PIN")) {
+        cpu_set_t cs;
+        CPU_ZERO(&cs);
+        CPU_SET(wid % ncpu, &cs);
+        sched_setaffinity(0, sizeof cs, &cs);
+    }
     for (;;) {
         if (S->stop)
             break;
